@@ -32,6 +32,7 @@ def run(check: Check, repo: Repo, tier: str) -> None:
     K.variable_arm(check, repo)
     K.undefined_never_completes(check, repo)
     K.int_atoms(check, repo)
+    K.int_range_table(check, repo)
     K.enum_input_classes(check, repo)
     K.literal_rule_delegates(check, repo)
     K.domain_guards(check, repo, INPUT_ROLES)
